@@ -150,7 +150,8 @@ pub fn gen_case(rg: &mut Rg, rule: &str) -> Case {
             must = d(&["VariantArray", "EnumTable"]);
         }
         "lifetime-parameter" => {
-            let forms = ["Ref(&'a str)", "Named { r: &'a u8 }", "Ph(::core::marker::PhantomData<&'a ()>)"];
+            // the lifetime may be used by enabled or only by disabled variants: the derive must refuse either way
+            let forms = ["Ref(&'a str)", "Named { r: &'a u8 }", "Ph(::core::marker::PhantomData<&'a ()>)", "#[strum(disabled)] Ref(&'a str)", "#[strum(disabled)] Named { r: &'a u8 }"];
             let i = rg.below(forms.len());
             let g = if rg.chance(1, 2) { "<'a>" } else { "<'a, T>" };
             let mut bad = vec![forms[i].to_string()];
@@ -296,7 +297,7 @@ pub fn gen_case(rg: &mut Rg, rule: &str) -> Case {
             must = d(&["Display", "AsRefStr", "IntoStaticStr"]);
         }
         "placeholder-on-unit" => {
-            let lits = ["x{0}", "{}", "{name}", "{0:>4}", "pre {a} post", "{{}}{0}", "{x:?}"];
+            let lits = ["x{0}", "{}", "{name}", "{0:>4}", "pre {a} post", "{{}}{0}", "{x:?}", "日本 {amount} 円", "éé{0}", "ünï {x} ß", "🦀{}"];
             let l = *rg.pick(&lits);
             let extra = if rg.chance(1, 3) { ", serialize = \"plain\"" } else { "" };
             // the placeholder reaches the printed name through to_string, through the (longest) serialize
